@@ -17,3 +17,18 @@ reg('C06',
     'cyclomatic number >=6 on <=7 atoms.',
     'explicit bounded-exhaustive state enumeration (all labelled graphs n<=7/8) on the real implementation vs. reference model',
     'DESIGN.md s5 C06')
+
+reg('C13',
+    'Explicit-state breadth-first search over histories of public edit calls (add/delete atom and bond, charge/radical edits in transactions, '
+    'multi-edit transactions, transactions that raise, calls that must fail, remap, copy, substructure, union, in-place union, stereo edits) on '
+    'small seed molecules. The environment choice between events -- which derived values are read (all / reversed / none / exactly one of 12) -- is '
+    'explored with a deviation bound, so every stale-cache pattern within the bound is visited. In every state: adjacency symmetry and object '
+    'sharing, 29 derived values equal to those of a molecule rebuilt from scratch, transaction atomicity against the pre-state snapshot, '
+    'source/result independence for copy/substructure/union. States are deduplicated on (raw atoms and bonds in insertion order, stereo marks, '
+    'transaction bookkeeping, populated cache keys).',
+    'Trusted: the rebuilt molecule (fresh add_atom/add_bond in the same insertion order) as reference for derived values; this decides coherence, '
+    'not correctness of the derived values themselves (C01-C06 do that). Bounds: quick depth 3 (<=4 atoms, <=1 charged/radical atom) with default '
+    'reads plus depth 2 with <=1 read deviation; thorough depth 4 (<=5 atoms) plus depth 3 with <=1 and <=2 deviations. Long random sequences of '
+    'the property text are replaced by this bounded exhaustive space.',
+    'explicit-state BFS with canonical state hashing and deviation-bounded environment choices, real implementation vs rebuilt reference',
+    'DESIGN.md s5 C13')
